@@ -169,6 +169,10 @@ class DefUse:
             elif t.kind == "assert":
                 if t.cond.place is not None: self.uses[t.cond.place.l].append(("term", t, "assert"))
 
+    def value_defs(self, local):
+        """definitions of the local's own value: writes through it (`(*l).f = ..`) change the pointee, not the local"""
+        return [(k, d) for k, d in self.defs.get(local, []) if not (k == "stmt" and d.kind == "assign" and d.lhs.p and d.lhs.p[0] == "*")]
+
     def const_only(self, local):
         """all definitions are constant assignments -> set of ints, else None"""
         vals = set()
@@ -352,7 +356,7 @@ def ref_base(du, local, max_hops=12):
     mut = False
     l = local
     for _ in range(max_hops):
-        ds = du.defs.get(l, [])
+        ds = du.value_defs(l)
         if len(ds) != 1 or ds[0][0] != "stmt": return l, mut
         s = ds[0][1]
         if s.kind != "assign" or s.lhs.p: return l, mut
@@ -404,7 +408,7 @@ def ref_chain(du, local, max_hops=12):
     """all locals on the single-definition ref/copy chain starting at `local` (inclusive)"""
     out = [local]; l = local
     for _ in range(max_hops):
-        ds = du.defs.get(l, [])
+        ds = du.value_defs(l)
         if len(ds) != 1 or ds[0][0] != "stmt": break
         s = ds[0][1]
         if s.kind != "assign" or s.lhs.p: break
